@@ -47,6 +47,7 @@ type c17Scenario struct {
 	NonFatalPct   int  `json:"nonfatal_pct"`   // share of entries whose certificate parses with a non-fatal error
 	UnparsablePct int  `json:"unparsable_pct"` // share of entries that do not parse at all
 	Rescan        bool `json:"rescan,omitempty"` // the same Scanner runs Scan a second time over the same range
+	NilMatcher    bool `json:"nil_matcher,omitempty"` // ScannerOptions.Matcher left unset (documented default: match everything)
 }
 
 const c17MaxEntries = 1400
@@ -148,6 +149,7 @@ func genC17(seed uint64, tier string) any {
 		sc.UnparsablePct = 0
 	}
 	sc.Rescan = r.Chance(1, 6)
+	sc.NilMatcher = r.Chance(1, 10)
 	if r.Chance(1, 30) {
 		sc.Rescan = false
 		// more range requests than the scanner's internal queues hold: many single-entry batches
@@ -376,6 +378,9 @@ func execC17(t *testing.T, scAny any, keepLog bool) *Outcome {
 		lg.SetLevel(logrus.PanicLevel)
 		opts := scanner.ScannerOptions{Matcher: c17Matcher{sc: sc, hits: &hits, bad: &bad}, PrecertOnly: sc.PrecertOnly, BatchSize: int64(sc.Batch), NumWorkers: sc.Workers,
 			ParallelFetch: sc.Fetchers, StartIndex: int64(sc.Start), Quiet: true, Name: "simlog", MaximumIndex: int64(sc.MaxIndex)}
+		if sc.NilMatcher {
+			opts.Matcher = nil
+		}
 		s := scanner.NewScanner(lc, opts, lg)
 		updater := make(chan int64, 1<<16)
 		onFound := func(e *ct.LogEntry, _ string) {
@@ -470,6 +475,15 @@ func execC17(t *testing.T, scAny any, keepLog bool) *Outcome {
 				if sc.Rescan {
 					want = 2 // once per Scan
 				}
+			}
+			if sc.NilMatcher {
+				// no harness matcher in the loop: the default matcher matches everything, so the found-callbacks are the
+				// record of what was processed
+				if found[i] != want {
+					o.Fail = Failf("c17.exactly_once", "entry not handed over exactly once per Scan (default matcher)", "entry %d: found-callbacks %d, expected %d", i, found[i], want)
+					break
+				}
+				continue
 			}
 			if hits[i] != want {
 				kind := "missed"
